@@ -24,6 +24,10 @@ RULES = {
               "for the given arguments has been validated",
     "R16.4b": "ListWrapper: no position computed before a re-entrant hook is used on the store "
               "after it",
+    "R16.6": "item operations hand the caller's index to the wrapped list unchanged (negative "
+             "and out-of-range indexes then behave as the built-in's)",
+    "R16.7": "every method an owning collection resolves reaches the store only through the "
+             "ownership primitives / hooks (shared with C04: R03.3, R03.5)",
     "R16.5": "the symbolic-expression mapping stores into a SortedDict mutated only by "
              "__setitem__/__delitem__",
 }
@@ -57,6 +61,14 @@ def run(chk: Check) -> None:
         _completeness(chk, abc, c, a)
     _list_hooks(chk, types)
     _symexpr_dict(chk, abc)
+    _index_unchanged(chk)
+    own = ownership(repo)
+    k = 0
+    for prop, rule, construct, ok, loc, msg, facts in own.obs:
+        if rule == "R03.5" or (rule == "R03.3" and ("hook" in construct or prop == "C04")):
+            chk.ob("R16.7", construct, ok, loc, msg, facts)
+            k += 1
+    chk.floor("R16.7", "routing / pairing obligations", k, 30)
 
 
 # ---------------------------------------------------------------------------
@@ -416,3 +428,45 @@ def _symexpr_dict(chk: Check, abc: AbcModel) -> None:
                        f.name in ("__setitem__", "__delitem__"), f.loc(muts[0]),
                        "%s mutates the sorted store directly; only __setitem__/__delitem__ may"
                        % f.qualname, 2)
+
+
+def _index_unchanged(chk: Check) -> None:
+    repo = chk.repo
+    lw = repo.cls("ListWrapper")
+    n = 0
+    for c in [lw] + repo.subclasses(lw):
+        for nm in ("__getitem__", "__setitem__", "__delitem__", "insert", "pop"):
+            f = c.methods.get(nm)
+            if f is None:
+                continue
+            chk.saw(f)
+            ps = f.param_names()
+            if len(ps) < 2:
+                continue
+            idx = ps[1]
+            n += 1
+            rebound = [x for x in walk_no_nested(f.node)
+                       if isinstance(x, (ast.Assign, ast.AugAssign, ast.AnnAssign)) and any(
+                           isinstance(t, ast.Name) and t.id == idx
+                           for t in (x.targets if isinstance(x, ast.Assign) else [x.target]))]
+            chk.ob("R16.6", "%s:index-parameter-unchanged" % f.qualname, not rebound,
+                   f.loc(rebound[0]) if rebound else f.loc(),
+                   "%s rewrites its index argument (%s) before applying it to the wrapped list: "
+                   "negative or out-of-range indexes no longer behave like list's (e.g. slice(-1, 0) "
+                   "is empty, so del x[-1] / pop() remove nothing)"
+                   % (f.qualname, unparse(rebound[0])[:50] if rebound else ""), 2)
+            # the operation on the store uses that parameter itself
+            uses = []
+            for x in walk_no_nested(f.node):
+                if isinstance(x, ast.Subscript) and attr_path(x.value) == (f.self_name, "_data") and \
+                        isinstance(getattr(x, "_parent", None), (ast.Assign, ast.Delete, ast.Return)) and \
+                        not isinstance(x.ctx, ast.Load) or (
+                            isinstance(x, ast.Subscript) and attr_path(x.value) == (f.self_name, "_data")
+                            and isinstance(getattr(x, "_parent", None), ast.Return)):
+                    uses.append(x)
+            if uses:
+                ok = all(attr_path(u.slice) == (idx,) for u in uses)
+                chk.ob("R16.6", "%s:store-op-uses-argument" % f.qualname, ok, f.loc(uses[0]),
+                       "%s applies %s to the wrapped list instead of the caller's index"
+                       % (f.qualname, [unparse(u.slice) for u in uses]), 2)
+    chk.floor("R16.6", "ListWrapper item operations", n, 4)
